@@ -117,9 +117,9 @@ def c06_add_loop_guard(sig, case):
     if sig.get("op") != "add_loop" or sig.get("monitor") != "forward":
         return False
     st = (case.get("steps") or [{}])[-1]
-    guard = False
+    guard = bool((sig.get("flags") or {}).get("guard"))  # W2: boolean arguments recorded by the hook
     try:
-        guard = bool(st["args"][3]["v"])
+        guard = guard or bool(st["args"][3]["v"])
     except Exception:
         pass
     return guard and sig.get("kind", "").split(":")[0] in ("wrong_stmt", "expr_raises", "wrong_expr", "raises", "gap_raises", "block_raises", "stmt_to_nonstmt")
